@@ -11,7 +11,8 @@ Import ListNotations.
 
    Mapping gate-level control -> model schedule (see notes/C07.md): the controller
    releases thread a from a gate (call gate = PIdle, fn gate = PInFn for SF/LC or
-   PRmCreate for RM); the thread runs its atomic actions until it parks at the next gate,
+   PRmCreate for RM, and for RM also PCalled = parked between the invocation of GetResource
+   and singleFlight.Do, status code 4); the thread runs its atomic actions until it parks at the next gate,
    blocks or finishes; then the threads woken by it run, in the order in which they were
    seen to make progress on the implementation ([sorder], an oracle that the model
    validates: a listed thread that cannot move or an unlisted one that can shows up as a
@@ -26,6 +27,7 @@ Definition at_gate (s : state) (t : nat) : bool :=
     | Some o =>
       match tpc th, ogrp o with
       | PIdle, _ => true
+      | PCalled, GRM => true     (* GetResource invoked, parked in front of singleFlight.Do *)
       | PInFn _, GRM => false
       | PInFn _, _ => true
       | PRmCreate _, _ => true
@@ -35,7 +37,7 @@ Definition at_gate (s : state) (t : nat) : bool :=
   end.
 
 (* status codes as reported by the controller: 0 parked at the call gate, 3 parked at the
-   fn gate, 1 blocked inside the library, 2 done; second component: call index *)
+   fn gate, 4 parked in front of singleFlight.Do (ResourceManager), 1 blocked inside the library, 2 done; second component: call index *)
 Definition status (s : state) (t : nat) : Z * Z :=
   match nth_error (threads s) t with
   | None => (2, 0)%Z
@@ -46,6 +48,7 @@ Definition status (s : state) (t : nat) : Z * Z :=
       if at_gate s t then
         match tpc th with
         | PIdle => (0%Z, Z.of_nat (topi th))
+        | PCalled => (4%Z, Z.of_nat (topi th))
         | _ => (3%Z, Z.of_nat (topi th))
         end
       else (1%Z, Z.of_nat (topi th))
